@@ -34,10 +34,10 @@ def _unwrap_hooked(it):
 
 def make_module(name, kind, log, on_import=None):
     m = types.ModuleType(name)
-    if kind in ("mod", "both", "raise", "importer"):
+    if kind in ("mod", "both", "raise", "importer", "bothraise"):
         def glue(name=name, kind=kind, m=m):
             log.append((name, "module", id(m)))
-            if kind == "raise":
+            if kind in ("raise", "bothraise"):
                 raise ValueError("module glue of %s fails" % name)
             if kind == "importer":
                 on_import(name)      # the glue imports a helper module that carries glue of its own
@@ -87,7 +87,7 @@ def run_history(req):
 
     def new_module(name, kind):
         m = make_module(name, kind, log, on_import)
-        if kind in ("mod", "both", "raise", "importer"):
+        if kind in ("mod", "both", "raise", "importer", "bothraise"):
             unrun_mod.add(id(m))
         return m
 
@@ -107,7 +107,7 @@ def run_history(req):
                     present[slot] = (name, None, kind)
                     stats["adds"] += 1
                     continue
-                if kind in ("bi", "both", "biraise"):
+                if kind in ("bi", "both", "biraise", "bothraise"):
                     # built-in glue is registered while the module is absent (otherwise it would run at once)
                     register_builtin(name, kind, log)
                     bi_pending.add(name)
@@ -231,7 +231,7 @@ def run_history(req):
                 nraise = 0
                 for (n, k, _i) in got:
                     kind = kinds.get(n)
-                    if (k == "module" and kind == "raise") or (k == "builtin" and kind == "biraise"):
+                    if (k == "module" and kind in ("raise", "bothraise")) or (k == "builtin" and kind == "biraise"):
                         nraise += 1
                 stats["raising_glue_runs"] += nraise
                 if nwarn != nraise:
